@@ -110,6 +110,10 @@ pub struct SessionSpec {
     /// also audit the ledger when the session ends (C04: nothing is left once the pair is dropped
     /// and the caller has released what it was handed)
     pub ledger: bool,
+    /// released boxes go straight back to the allocator (no quarantine): addresses are recycled, a
+    /// stale reference can come to point at a *new* object (with the caller releasing early this is
+    /// what a long-running embedding sees)
+    pub recycle: bool,
 }
 
 /// set by the session-ledger engine (C04) around the scenarios it runs
@@ -131,6 +135,7 @@ impl SessionSpec {
             "alloc_mode": alloc::mode_name(self.alloc_mode),
             "caller_releases": self.caller_releases,
             "ledger": self.ledger || ledger_mode(),
+            "recycle": self.recycle,
         })
     }
     pub fn from_json(v: &Value) -> SessionSpec {
@@ -150,6 +155,7 @@ impl SessionSpec {
             alloc_mode: alloc::mode_from_name(v["alloc_mode"].as_str().unwrap_or("plain")),
             caller_releases: v["caller_releases"].as_bool().unwrap_or(false),
             ledger: v["ledger"].as_bool().unwrap_or(false),
+            recycle: v["recycle"].as_bool().unwrap_or(false),
         }
     }
 }
@@ -617,6 +623,16 @@ impl Store {
 }
 
 pub fn run_session(spec: &SessionSpec, verbose: bool) -> SessionResult {
+    let quarantine_before = shadow::QUARANTINE.load(std::sync::atomic::Ordering::Relaxed);
+    if spec.recycle {
+        shadow::QUARANTINE.store(false, std::sync::atomic::Ordering::Relaxed);
+    }
+    let r = run_session_inner(spec, verbose);
+    shadow::QUARANTINE.store(quarantine_before, std::sync::atomic::Ordering::Relaxed);
+    r
+}
+
+fn run_session_inner(spec: &SessionSpec, verbose: bool) -> SessionResult {
     let mut s = Session::new();
     let mut p: Vec<String> = Vec::new();
     let mut out_p = String::new(); // output of eval(P)
@@ -972,7 +988,7 @@ fn line(label: &str, stmts: Vec<SStmt>, fail: Fail, has_value: bool, injectable:
     }
 }
 
-pub const ALPHABET: usize = 32;
+pub const ALPHABET: usize = 33;
 
 /// Template `t` at session position `pos` (names are position-based, so never re-declared).
 fn template(t: usize, pos: usize, env: &mut GEnv) -> SLine {
@@ -1199,6 +1215,12 @@ fn template(t: usize, pos: usize, env: &mut GEnv) -> SLine {
                 ),
             }
         }
+        32 => match (env.latest("fresh"), env.latest("arr")) {
+            // an element assignment that fails inside the instruction must leave the global as it was
+            (Some(n), _) => line("elem-assign-fails", vec![st(&format!("{}[1] = 5;", n), false)], Fail::Run(0), false, false),
+            (None, Some(n)) => line("elem-assign-fails", vec![st(&format!("{}[9] = [{}];", n, n), false)], Fail::Run(0), false, false),
+            (None, None) => template(18, pos, env),
+        },
         31 => {
             // a global whose current value is null (an `als` without `anders` whose condition is false)
             decl(env, "null");
@@ -1798,6 +1820,29 @@ impl<'a> SGen<'a> {
                         ));
                         format!("f{}();", a)
                     }
+                    3 if self.rng.chance(1, 2) && self.globals.iter().any(|v| (v.ty == Ty::Str && v.min_len > 0) || matches!(&v.ty, Ty::Arr(_, n) | Ty::AnyArr(n) if *n > 0)) => {
+                        // an element assignment on an existing global fails inside the instruction (wrong
+                        // kind of value or of index, in range and out of range): it must not have changed
+                        // the global half-way
+                        let c: Vec<Var> = self.globals.iter().filter(|v| (v.ty == Ty::Str && v.min_len > 0) || matches!(&v.ty, Ty::Arr(_, n) | Ty::AnyArr(n) if *n > 0)).cloned().collect();
+                        let v = self.rng.pick(&c).clone();
+                        if v.ty == Ty::Str {
+                            let i = self.rng.usize(v.min_len);
+                            match self.rng.below(5) {
+                                0 => format!("{}[{}] = 5;", v.name, i),
+                                1 => format!("{}[{}] = [\"x\"];", v.name, i),
+                                2 => format!("{}[{}] = 2.5;", v.name, i),
+                                3 => format!("{}[ja] = \"x\";", v.name),
+                                _ => format!("{}[{}] = \"x\";", v.name, 40 + i),
+                            }
+                        } else {
+                            match self.rng.below(3) {
+                                0 => format!("{}[99] = [1.5];", v.name),
+                                1 => format!("{}[\"x\"] = 1;", v.name),
+                                _ => format!("{}[-99] = string(3);", v.name),
+                            }
+                        }
+                    }
                     3 if !self.globals.is_empty() => {
                         // an existing global is declared again by a statement that fails before the assignment
                         let a = self.rng.pick(&self.globals).name.clone();
@@ -1842,6 +1887,8 @@ fn random_session(rng: &mut Rng) -> SessionSpec {
     }
     // optionally one injected failure in an injectable line (position chosen now, step chosen by the caller)
     let caller_releases = rng.chance(2, 3);
+    let recycle = caller_releases && rng.chance(1, 3);
+    let alloc_mode = if recycle { alloc::PLAIN } else { alloc_mode };
     SessionSpec {
         lines,
         crash: None,
@@ -1850,6 +1897,7 @@ fn random_session(rng: &mut Rng) -> SessionSpec {
         alloc_mode,
         caller_releases,
         ledger: false,
+        recycle,
     }
 }
 
@@ -1857,7 +1905,7 @@ fn random_session(rng: &mut Rng) -> SessionSpec {
 // directed sessions
 
 fn directed(i: usize) -> Option<SessionSpec> {
-    let mk = |lines: Vec<SLine>| SessionSpec { lines, crash: None, compile_crash: None, collect_every_step: false, alloc_mode: alloc::PLAIN, caller_releases: i % 2 == 0, ledger: false };
+    let mk = |lines: Vec<SLine>| SessionSpec { lines, crash: None, compile_crash: None, collect_every_step: false, alloc_mode: alloc::PLAIN, caller_releases: i % 2 == 0, ledger: false, recycle: i % 4 == 0 };
     match i {
         0 => {
             // many failing lines that each leave operands and frames behind, then function calls
@@ -2108,7 +2156,7 @@ pub fn small_session(seed: u64, i: u64) -> SessionSpec {
 /// Quick tier: besides all sessions of length 1-2, every "sandwich" of three lines
 /// (a declaration, any failing template, an observing template) - the length-3 sessions that matter most.
 const SANDWICH_SETUP: &[usize] = &[0, 2, 3, 30, 31];
-const SANDWICH_FAIL: &[usize] = &[12, 13, 14, 15, 16, 17, 18, 23, 24, 27, 28];
+const SANDWICH_FAIL: &[usize] = &[12, 13, 14, 15, 16, 17, 18, 23, 24, 27, 28, 32];
 const SANDWICH_OBSERVE: &[usize] = &[5, 6, 7, 9, 10, 19, 20, 21, 22, 26];
 
 fn sandwiches() -> u64 {
@@ -2180,6 +2228,9 @@ fn account(acc: &mut Acc, spec: &SessionSpec, r: &SessionResult) {
     }
     if spec.collect_every_step {
         acc.count("sessions_with_collection_at_every_step", 1);
+    }
+    if spec.recycle {
+        acc.count("sessions_with_recycled_addresses_no_quarantine", 1);
     }
     if spec.caller_releases {
         acc.count("sessions_where_the_caller_releases_unreferenced_values_early", 1);
@@ -2309,7 +2360,7 @@ pub fn scenario(acc: &mut Acc, seed: u64, index: u64, tier: Tier) {
             3
         };
         let lines = enumerated_session(code, len);
-        let sp = SessionSpec { lines, crash: None, compile_crash: None, collect_every_step: false, alloc_mode: alloc::PLAIN, caller_releases: index % 4 != 3, ledger: false };
+        let sp = SessionSpec { lines, crash: None, compile_crash: None, collect_every_step: false, alloc_mode: alloc::PLAIN, caller_releases: index % 4 != 3, ledger: false, recycle: index % 4 == 1 };
         acc.count("enumerated_sessions", 1);
         h = explore(acc, &sp, seed, index, true, &mut rng);
         // the same session once more with a collection at every instruction boundary
